@@ -14,6 +14,7 @@ import (
 	"errors"
 	"fmt"
 	"io"
+	"reflect"
 	"sync"
 	"sync/atomic"
 	"time"
@@ -23,6 +24,7 @@ import (
 	"github.com/marekgalovic/anndb/services"
 	"github.com/marekgalovic/anndb/storage"
 	"github.com/marekgalovic/anndb/storage/raft"
+	"github.com/marekgalovic/anndb/storage/wal"
 	"google.golang.org/grpc"
 	"google.golang.org/grpc/metadata"
 
@@ -116,6 +118,7 @@ func (g *simGroup) Applied() int {
 
 type simNode struct {
 	id        uint64
+	ctl       *crashCtl // crash plan of this incarnation (nil: the node cannot crash)
 	db        *badger.DB
 	node      *storage.VerifNode
 	group     *simGroup
@@ -200,7 +203,7 @@ func newSimClusterAt(n int, dir string) *simCluster {
 			if a != b {
 				c.nodes[a].node.Conn.AddNode(b, fmt.Sprintf("node-%d", b))
 			}
-			c.nodes[a].node.Transport.VerifSetClient(b, &simRaftClient{c, a, b})
+			c.nodes[a].node.Transport.VerifSetClient(b, &simRaftClient{c, a, b, c.nodes[a]})
 		}
 	}
 	return c
@@ -331,7 +334,10 @@ func (c *simCluster) dataset(node uint64, id uuid.UUID) *storage.Dataset {
 type simRaftClient struct {
 	c        *simCluster
 	from, to uint64
+	owner    *simNode // the incarnation this client belongs to (nil: not tracked)
 }
+
+func (n *simNode) isDead() bool { return n != nil && n.ctl != nil && n.ctl.isDead() }
 
 func (r *simRaftClient) Receive(ctx context.Context, in *pb.RaftMessage, opts ...grpc.CallOption) (*pb.EmptyMessage, error) {
 	r.c.mu.Lock()
@@ -340,11 +346,30 @@ func (r *simRaftClient) Receive(ctx context.Context, in *pb.RaftMessage, opts ..
 	if drop != nil && drop(r.from, r.to) {
 		return nil, errors.New("sim: message dropped")
 	}
+	r.c.mu.Lock()
 	n, ok := r.c.nodes[r.to]
+	r.c.mu.Unlock()
 	if !ok {
 		return nil, errors.New("sim: no such node")
 	}
-	return n.node.Transport.Receive(ctx, in)
+	if r.owner.isDead() || n.isDead() {
+		return nil, errors.New("sim: node is down")
+	}
+	// as over gRPC: the sender's deadline bounds the call, the handler keeps running
+	done := make(chan error, 1)
+	go func() {
+		_, err := n.node.Transport.Receive(context.Background(), in)
+		done <- err
+	}()
+	select {
+	case err := <-done:
+		if err != nil {
+			return nil, err
+		}
+		return &pb.EmptyMessage{}, nil
+	case <-ctx.Done():
+		return nil, ctx.Err()
+	}
 }
 
 type simDMClient struct {
@@ -365,7 +390,13 @@ func (d *simDMClient) pre(ctx context.Context, method string, req interface{}) (
 			return nil, err
 		}
 	}
-	return d.c.nodes[d.to].dmSrv, nil
+	d.c.mu.Lock()
+	t := d.c.nodes[d.to]
+	d.c.mu.Unlock()
+	if t.isDead() {
+		return nil, errDialFault
+	}
+	return t.dmSrv, nil
 }
 
 func (d *simDMClient) Insert(ctx context.Context, in *pb.InsertRequest, opts ...grpc.CallOption) (*pb.EmptyMessage, error) {
@@ -522,3 +553,84 @@ func (s *simSearchClient) SearchPartitions(ctx context.Context, in *pb.SearchPar
 
 var errStreamFault = errors.New("sim: node failed mid-stream")
 var errDialFault = errors.New("sim: node unreachable")
+
+// ---------------------------------------------------------------- crash / restart of a simulated node
+
+var ctlByDB sync.Map // *badger.DB -> *crashCtl of the incarnation that currently owns the database
+
+// enableCrashes gives every node a crash plan: the log store of every partition created from now
+// on is wrapped (storage.VerifWrapWAL), the durable writes of a node are counted across its groups.
+func (c *simCluster) enableCrashes() {
+	storage.VerifWrapWAL = func(id uuid.UUID, w wal.WAL) wal.WAL {
+		db := reflect.ValueOf(w).Elem().FieldByName("db").Pointer()
+		var ctl *crashCtl
+		ctlByDB.Range(func(k, v interface{}) bool {
+			if reflect.ValueOf(k).Pointer() == db {
+				ctl = v.(*crashCtl)
+				return false
+			}
+			return true
+		})
+		if ctl == nil {
+			return w
+		}
+		return &crashWAL{inner: w, ctl: ctl, gid: id}
+	}
+	for _, n := range c.nodes {
+		n.ctl = newCrashCtl()
+		ctlByDB.Store(n.db, n.ctl)
+	}
+}
+
+// restartNode replaces the (dead) incarnation of node id by a fresh one over the same database:
+// the catalogue log is replayed into it, which re-creates the datasets, whose partitions restart
+// their raft groups from the log store.
+func (c *simCluster) restartNode(id uint64) (*simNode, error) {
+	c.mu.Lock()
+	old := c.nodes[id]
+	c.mu.Unlock()
+	if old.ctl != nil {
+		old.ctl.kill()
+	}
+	func() { defer func() { recover() }(); close(old.group.stopped) }()
+	func() { defer func() { recover() }(); old.node.Allocator.Stop() }()
+	go old.node.Transport.VerifStopAllGroups()
+	ctl := newCrashCtl()
+	ctlByDB.Store(old.db, ctl)
+	g := &simGroup{cat: c.cat, nodeId: id, inbox: make(chan interface{}, 4096), stopped: make(chan struct{})}
+	vn, err := storage.VerifNewNode(id, old.db, g)
+	if err != nil {
+		return nil, err
+	}
+	sn := &simNode{id: id, ctl: ctl, db: old.db, node: vn, group: g,
+		dmSrv: services.NewDataManagerServer(vn.DatasetManager), searchSrv: services.NewSearchServer(vn.DatasetManager),
+		dsSrv: services.NewDatasetManagerServer(vn.DatasetManager)}
+	for _, b := range c.ids {
+		if b != id {
+			vn.Conn.AddNode(b, fmt.Sprintf("node-%d", b))
+			vn.Transport.VerifSetClient(b, &simRaftClient{c, id, b, sn})
+		}
+	}
+	c.cat.mu.Lock()
+	for i, m := range c.cat.members {
+		if m == old.group {
+			c.cat.members[i] = g
+		}
+	}
+	for _, e := range c.cat.log {
+		g.inbox <- e
+	}
+	n := len(c.cat.log)
+	c.cat.mu.Unlock()
+	c.mu.Lock()
+	c.nodes[id] = sn
+	c.mu.Unlock()
+	go g.run()
+	if !waitFor(10*time.Second, func() bool { return g.Applied() >= n }) {
+		return sn, errors.New("catalogue replay stalls")
+	}
+	if ps := g.Panics(); len(ps) > 0 {
+		return sn, errors.New("catalogue replay panicked: " + ps[0])
+	}
+	return sn, nil
+}
